@@ -282,7 +282,7 @@ int main(int argc, char** argv)
     "products: case = (operation, dimension tuple, one of ALL pattern tuples (X,D[,A],B), empty-pattern representation, allow_incomplete), each executed for alpha in {1,-1,1/2,0.3,0} x {exact, rounding alphabet} + all-negative alphabet + product added twice (re-invocation) + derived operands (clones / moved, output = weak clone of a bystander); "
     "non-trivial = pattern(s) with entries; hash over all of these";
   spec.bounds_quick = "element-wise: shapes {0..3}x{0..3}, all patterns, (double,u64),(float,u32),(double,u32); products: add_mat_mat_product and the diagonal-vector double product for all dims in {1,2}^3, "
-    "add_double_mat_product for all dims in {1,2}^4 (65536 pattern tuples for 2x2x2x2, double/u64; float/u32 up to 2^14 tuples per dims); (sanitizer build: up to 2^12 resp. 2^10 tuples per dims); incomplete & !allow_incomplete executions must die with SIGABRT (trapped in-process by a sigsetjmp handler; a deterministic 1/97 sample is repeated in a forked child and must agree)";
+    "add_double_mat_product for all dims in {1,2}^4 (65536 pattern tuples for 2x2x2x2, double/u64; float/u32 up to 2^12 tuples per dims); (sanitizer build: up to 2^12 resp. 2^10 tuples per dims); incomplete & !allow_incomplete executions must die with SIGABRT (trapped in-process by a sigsetjmp handler; a deterministic 1/97 sample is repeated in a forked child and must agree)";
   spec.bounds_thorough = "quick + element-wise shapes 2x4,4x2,3x4,4x3,4x4(double) + products with one dimension 3 (up to 2^18 pattern tuples per dimension tuple) for (double,u64), all {1,2}^4 for (float,u32)";
   spec.assumptions = {
     "oracle: dense long double formulas written in the harness, restricted to the output pattern where entries are dropped (allow_incomplete)",
@@ -299,7 +299,7 @@ int main(int argc, char** argv)
     enum_products<float, std::uint32_t>(c, 10);
 #else
     enum_products<double, std::uint64_t>(c, 16);
-    enum_products<float, std::uint32_t>(c, 14);
+    enum_products<float, std::uint32_t>(c, 12);
 #endif
   });
 }
